@@ -6,6 +6,8 @@ import (
 	"io"
 	"sort"
 	"unicode/utf8"
+
+	"github.com/WICG/webpackage/go/internal/verifhook"
 )
 
 var (
@@ -61,6 +63,7 @@ func (e *Encoder) encodeTypedUint(t Type, n uint64) error {
 		n >>= 8
 	}
 
+	verifhook.Point("cbor.encodeTypedUint.write")
 	if _, err := e.w.Write(encoded); err != nil {
 		return err
 	}
@@ -91,6 +94,7 @@ func (e *Encoder) encodeBytes(t Type, bs []byte) error {
 	if err := e.encodeTypedUint(t, uint64(len(bs))); err != nil {
 		return err
 	}
+	verifhook.Point("cbor.encodeBytes.write")
 	if _, err := e.w.Write(bs); err != nil {
 		return err
 	}
@@ -166,6 +170,7 @@ func (e *Encoder) EncodeBool(b bool) error {
 	}
 
 	bs := []byte{TypeOther | ai}
+	verifhook.Point("cbor.EncodeBool.write")
 	if _, err := e.w.Write(bs); err != nil {
 		return err
 	}
@@ -234,6 +239,7 @@ func (e *Encoder) EncodeMap(mes []*MapEntryEncoder) error {
 			return ErrDuplicatedKey
 		}
 		lastKeyBytes = entry.KeyBytes()
+		verifhook.Point("cbor.EncodeMap.entry")
 
 		if _, err := io.Copy(e.w, &entry.keyBuf); err != nil {
 			return err
